@@ -88,7 +88,16 @@ pub fn run_c04(ctx: &Ctx, rep: &mut Report) {
             layout.version = 3;
             layout.min_total_sectors = 109 * 128 + rng.range(10, 400) as usize;
         }
-        let model = synth::random_model(rng, max_nodes, if big { 9000 } else { 20000 });
+        let mut model = synth::random_model(rng, max_nodes, if big { 9000 } else { 20000 });
+        if !big && rng.chance(1, 12) {
+            // no small stream at all: the file has no mini stream, and the root entry's start
+            // sector field holds whatever the other writer left there
+            let n = rng.range(1, 4) as usize;
+            let items: Vec<(String, Vec<u8>)> = (0..n).map(|i| (format!("big{i}"), crate::engine::payload(300 + i as u64, *rng.pick(&[4096usize, 5000, 8192, 9000, 20000])))).collect();
+            model = synth::flat_model(&items);
+            layout.stale_root_start = true;
+            rep.count("layout.no_mini_stream_stale_root_start");
+        }
         let (bytes, feat) = synth::synthesize(&model, &layout, rng);
         rep.evaluations += 1;
         if let Err(why) = self_check(&model, &bytes) {
